@@ -1021,3 +1021,188 @@ zstubs! { #[kani::unwind(40)] fn c18_psk_fixed_2_external() { psk_fixed_case(2, 
 zstubs! { #[kani::unwind(40)] fn c18_psk_fixed_2_mixed() { psk_fixed_case(2, 1); } }
 
 
+
+
+// ===================================================================================================
+// Epoch derivation chain with `SecretTree::new` cut away (kani::stub: the map stays empty, the encryption
+// secret is parked in the hook): everything else is the real code, KDFLabel encoding included.
+macro_rules! estubs {
+    ($(#[$m:meta])* fn $name:ident() $body:block) => {
+        #[kani::proof]
+        $(#[$m])*
+        #[kani::stub(mls_rs::group::secret_tree::SecretTree::new, mls_rs::verif::derive::secret_tree_new_cut)]
+        #[kani::stub(zeroize::optimization_barrier, crate::stubs::optimization_barrier_stub)]
+        #[kani::stub(zeroize::volatile_set, crate::stubs::volatile_set_stub)]
+        fn $name() $body
+    };
+}
+
+fn check_nine(log: &Log, lo: usize, hi: usize, es: &[u8], o: &EpochOut, tree_size: u32) {
+    assert!(derived_from(log, lo, hi, false, es, b"sender data", &[], NH, &o.sender_data_secret), "sender_data_secret");
+    assert!(derived_from(log, lo, hi, false, es, b"exporter", &[], NH, &o.exporter_secret), "exporter_secret");
+    assert!(derived_from(log, lo, hi, false, es, b"external", &[], NH, &o.external_secret), "external_secret");
+    assert!(derived_from(log, lo, hi, false, es, b"confirm", &[], NH, &o.confirmation_key), "confirmation_key");
+    assert!(derived_from(log, lo, hi, false, es, b"membership", &[], NH, &o.membership_key), "membership_key");
+    assert!(derived_from(log, lo, hi, false, es, b"resumption", &[], NH, &o.resumption_secret), "resumption_psk");
+    assert!(derived_from(log, lo, hi, false, es, b"authentication", &[], NH, &o.authentication_secret), "epoch_authenticator");
+    assert!(derived_from(log, lo, hi, false, es, b"init", &[], NH, &o.init_secret), "init_secret");
+    let (elen, ebytes) = last_encryption_secret();
+    assert!(elen == NH, "an encryption secret of Nh bytes was handed to the secret tree");
+    assert!(derived_from(log, lo, hi, false, es, b"encryption", &[], NH, &ebytes[..NH]), "encryption_secret");
+    assert!(o.secret_tree_leaf_count == tree_size, "secret tree sized for the group's tree");
+}
+
+estubs! {
+    #[kani::unwind(64)]
+    fn c13_epoch_from_key_schedule() {
+        let mut log = Log::new(16);
+        let uf = Uf::new(&mut log);
+        let init = vec_of(any_bytes::<NH>());
+        let commit = vec_of(any_bytes::<NH>());
+        let psk = vec_of(any_bytes::<NH>());
+        let (ctx, ctx_enc) = sym_context();
+        let last = key_schedule_with_init(init.clone());
+        match from_key_schedule_v(&last, commit.clone(), &ctx, 4, psk.clone(), &uf) {
+            Ok(o) => {
+                assert!(log.calls.len() == 13, "2 extracts + 2 context expansions + 9 DeriveSecret");
+                assert!(is_extract(&log.calls[0], &init, &commit), "joiner seed = Extract(init_secret, commit_secret)");
+                let seed = rk::fix::<NH>(&log.calls[0].out);
+                assert!(is_expand(&log.calls[1], &seed, b"joiner", &ctx_enc, NH), "joiner = ExpandWithLabel(seed, joiner, GroupContext, Nh)");
+                let joiner = rk::fix::<NH>(&log.calls[1].out);
+                assert!(rk::eqn(&o.joiner_secret, &joiner, NH));
+                assert!(is_extract(&log.calls[2], &joiner, &psk), "epoch seed = Extract(joiner_secret, psk_secret)");
+                let eseed = rk::fix::<NH>(&log.calls[2].out);
+                assert!(is_expand(&log.calls[3], &eseed, b"epoch", &ctx_enc, NH), "epoch secret = ExpandWithLabel(seed, epoch, GroupContext, Nh)");
+                let es = rk::fix::<NH>(&log.calls[3].out);
+                check_nine(&log, 4, 13, &es, &o, 4);
+                forget(o);
+            }
+            Err(e) => { forget(e); assert!(false, "derivation failed"); }
+        }
+        forget(last);
+        forget(ctx);
+        forget(log);
+        kani::cover!(true);
+    }
+}
+
+estubs! {
+    #[kani::unwind(64)]
+    fn c13_epoch_from_joiner() {
+        let mut log = Log::new(16);
+        let uf = Uf::new(&mut log);
+        let joiner = vec_of(any_bytes::<NH>());
+        let psk = vec_of(any_bytes::<NH>());
+        let (ctx, ctx_enc) = sym_context();
+        match from_joiner_v(&uf, joiner.clone(), &ctx, 4, psk.clone()) {
+            Ok(o) => {
+                assert!(log.calls.len() == 11);
+                assert!(is_extract(&log.calls[0], &joiner, &psk), "epoch seed = Extract(joiner_secret, psk_secret)");
+                let eseed = rk::fix::<NH>(&log.calls[0].out);
+                assert!(is_expand(&log.calls[1], &eseed, b"epoch", &ctx_enc, NH));
+                let es = rk::fix::<NH>(&log.calls[1].out);
+                check_nine(&log, 2, 11, &es, &o, 4);
+                forget(o);
+            }
+            Err(e) => { forget(e); assert!(false); }
+        }
+        forget(ctx);
+        forget(log);
+        kani::cover!(true);
+    }
+}
+
+
+// The same derivation, one obligation group per harness (the solver slices the formula to what each asserts;
+// the all-in-one harnesses above exceeded 48 GB).
+fn epoch_split_case(which: u8) {
+    let mut log = Log::new(16);
+    let uf = Uf::new(&mut log);
+    let init = vec_of(any_bytes::<NH>());
+    let commit = vec_of(any_bytes::<NH>());
+    let psk = vec_of(any_bytes::<NH>());
+    let (ctx, ctx_enc) = sym_context();
+    let last = key_schedule_with_init(init.clone());
+    match from_key_schedule_v(&last, commit.clone(), &ctx, 4, psk.clone(), &uf) {
+        Ok(o) => {
+            assert!(log.calls.len() == 13, "2 extracts + 2 context expansions + 9 DeriveSecret");
+            if which == 0 {
+                assert!(is_extract(&log.calls[0], &init, &commit), "joiner seed = Extract(init_secret, commit_secret)");
+                let seed = rk::fix::<NH>(&log.calls[0].out);
+                assert!(is_expand(&log.calls[1], &seed, b"joiner", &ctx_enc, NH), "joiner = ExpandWithLabel(seed, joiner, GroupContext, Nh)");
+                let joiner = rk::fix::<NH>(&log.calls[1].out);
+                assert!(rk::eqn(&o.joiner_secret, &joiner, NH));
+                assert!(is_extract(&log.calls[2], &joiner, &psk), "epoch seed = Extract(joiner_secret, psk_secret)");
+                let eseed = rk::fix::<NH>(&log.calls[2].out);
+                assert!(is_expand(&log.calls[3], &eseed, b"epoch", &ctx_enc, NH), "epoch secret = ExpandWithLabel(seed, epoch, GroupContext, Nh)");
+            } else {
+                let es = rk::fix::<NH>(&log.calls[3].out);
+                if which == 9 {
+                    let (elen, ebytes) = last_encryption_secret();
+                    assert!(elen == NH, "an encryption secret of Nh bytes was handed to the secret tree");
+                    assert!(derived_from(&log, 4, 13, false, &es, b"encryption", &[], NH, &ebytes[..NH]), "encryption_secret = DeriveSecret(epoch_secret, encryption)");
+                    assert!(o.secret_tree_leaf_count == 4, "secret tree sized for the group's tree");
+                }
+                let (label, field): (&[u8], &[u8]) = match which {
+                    1 => (b"sender data", &o.sender_data_secret),
+                    2 => (b"exporter", &o.exporter_secret),
+                    3 => (b"external", &o.external_secret),
+                    4 => (b"confirm", &o.confirmation_key),
+                    5 => (b"membership", &o.membership_key),
+                    6 => (b"resumption", &o.resumption_secret),
+                    7 => (b"authentication", &o.authentication_secret),
+                    _ => (b"init", &o.init_secret),
+                };
+                if which != 9 {
+                    assert!(derived_from(&log, 4, 13, false, &es, label, &[], NH, field), "field = DeriveSecret(epoch_secret, label)");
+                }
+            }
+            forget(o);
+        }
+        Err(e) => { forget(e); assert!(false, "derivation failed"); }
+    }
+    forget(last);
+    forget(ctx);
+    forget(log);
+    kani::cover!(true);
+}
+estubs! { #[kani::unwind(64)] fn c13_epoch_split_head() { epoch_split_case(0); } }
+estubs! { #[kani::unwind(64)] fn c13_epoch_split_sender_data() { epoch_split_case(1); } }
+estubs! { #[kani::unwind(64)] fn c13_epoch_split_exporter() { epoch_split_case(2); } }
+estubs! { #[kani::unwind(64)] fn c13_epoch_split_external() { epoch_split_case(3); } }
+estubs! { #[kani::unwind(64)] fn c13_epoch_split_confirm() { epoch_split_case(4); } }
+estubs! { #[kani::unwind(64)] fn c13_epoch_split_membership() { epoch_split_case(5); } }
+estubs! { #[kani::unwind(64)] fn c13_epoch_split_resumption() { epoch_split_case(6); } }
+estubs! { #[kani::unwind(64)] fn c13_epoch_split_authentication() { epoch_split_case(7); } }
+estubs! { #[kani::unwind(64)] fn c13_epoch_split_init() { epoch_split_case(8); } }
+estubs! { #[kani::unwind(64)] fn c13_epoch_split_encryption() { epoch_split_case(9); } }
+
+// Joiner side (Welcome): epoch_secret = ExpandWithLabel(Extract(joiner, psk_secret), epoch, GroupContext); then the same nine.
+fn joiner_split_case(which: u8) {
+    let mut log = Log::new(16);
+    let uf = Uf::new(&mut log);
+    let joiner = vec_of(any_bytes::<NH>());
+    let psk = vec_of(any_bytes::<NH>());
+    let (ctx, ctx_enc) = sym_context();
+    match from_joiner_v(&uf, joiner.clone(), &ctx, 4, psk.clone()) {
+        Ok(o) => {
+            assert!(log.calls.len() == 11);
+            if which == 0 {
+                assert!(is_extract(&log.calls[0], &joiner, &psk), "epoch seed = Extract(joiner_secret, psk_secret)");
+                let eseed = rk::fix::<NH>(&log.calls[0].out);
+                assert!(is_expand(&log.calls[1], &eseed, b"epoch", &ctx_enc, NH), "epoch secret = ExpandWithLabel(seed, epoch, GroupContext, Nh)");
+            } else {
+                let es = rk::fix::<NH>(&log.calls[1].out);
+                assert!(derived_from(&log, 2, 11, false, &es, b"confirm", &[], NH, &o.confirmation_key), "confirmation_key");
+                assert!(derived_from(&log, 2, 11, false, &es, b"init", &[], NH, &o.init_secret), "init_secret");
+            }
+            forget(o);
+        }
+        Err(e) => { forget(e); assert!(false); }
+    }
+    forget(ctx);
+    forget(log);
+    kani::cover!(true);
+}
+estubs! { #[kani::unwind(64)] fn c13_epoch_joiner_head() { joiner_split_case(0); } }
+estubs! { #[kani::unwind(64)] fn c13_epoch_joiner_confirm_init() { joiner_split_case(1); } }
